@@ -190,6 +190,8 @@ def tlc(module, cfg=None, workdir=None, workers=None, timeout=600, simulate=None
     # many TLC processes run side by side (sharded traces, several checks): keep each JVM's heap modest unless asked
     heap = heap or os.environ.get("VERIF_TLC_HEAP", "6g")
     jopts += " -Xmx" + heap
+    # TLC unpacks its module cache into java.io.tmpdir (tlc-<n>/): keep that inside the scratch dir removed below
+    jopts += " -Djava.io.tmpdir=" + meta
     t = time.time()
     p = run(cmd, cwd=workdir, env={"JAVA_TOOL_OPTIONS": jopts.strip()}, timeout=timeout)
     shutil.rmtree(meta, ignore_errors=True)
